@@ -163,7 +163,12 @@ def prop_arrays(case):
         out = np.full(bshape[::-1], case['outfill'], dtype=np.uint8).T
     elif case['out'] == 'S':
         out = np.full(tuple(2 * d for d in bshape), case['outfill'], dtype=np.uint8)[tuple(slice(None, None, 2) for _ in bshape)]
-    r = f(*args) if out is None else f(*args, out=out)
+    if out is not None and case['outfill'] % 2 and op != 'not':
+        r = f(*args, out)                      # the documented signature is (x1, x2, out=None): the destination may be given by position
+    elif out is not None and case['outfill'] % 2:
+        r = f(args[0], out)
+    else:
+        r = f(*args) if out is None else f(*args, out=out)
     if out is not None and r is not out:
         raise Violation(f'mv_{op}(out=...) returned a different array than the caller-supplied one')
     if out is not None:             # the destination receives *the* result: code for code what the call without out= returns
